@@ -17,6 +17,7 @@ const helperDepth = 3
 // branchFacts enumerates, for every If of f, its out-edges with the directly tested atom and the atoms
 // implied through helper outcomes.
 func branchFacts(f *ssa.Function) []branchFact {
+	curEnv = nil
 	p := curProg
 	if p == nil {
 		return directFacts(f)
@@ -218,6 +219,47 @@ func outcomeAlts(p *Prog, h *ssa.Function, kind string, holds bool, e env, depth
 		if !isPhi {
 			rv = returnedValue(r, idx)
 		}
+		// a returned condition value: the outcome is that condition (plus the path facts)
+		condAlts := func(v ssa.Value, base []factAtom) [][]factAtom {
+			if kind != "bool" {
+				return nil
+			}
+			a, pos := decompose(v)
+			if a.Kind == "bool" {
+				if _, isParam := a.X.(*ssa.Parameter); !isParam {
+					if cl, _ := callOf(a.X); cl == nil {
+						if _, isField := a.X.(*ssa.UnOp); !isField {
+							return nil
+						}
+					}
+				}
+			}
+			fa := factAtom{withEnv(a), holds == pos}
+			out := [][]factAtom{append(append([]factAtom{}, base...), fa)}
+			// a returned helper call: its own outcome alternatives
+			if cl, k := helperOutcome(p, a); cl != nil && depth > 0 && !onStack[cl.Call.StaticCallee()] {
+				h2 := cl.Call.StaticCallee()
+				e2 := env{}
+				for k2, v2 := range e {
+					e2[k2] = v2
+				}
+				for i, prm := range h2.Params {
+					if i < len(cl.Call.Args) {
+						e2[prm] = cl.Call.Args[i]
+					}
+				}
+				onStack[h2] = true
+				inner := outcomeAlts(p, h2, k, holds == pos, e2, depth-1, onStack)
+				delete(onStack, h2)
+				if len(inner) > 0 {
+					out = nil
+					for _, in := range inner {
+						out = append(out, append(append(append([]factAtom{}, base...), fa), in...))
+					}
+				}
+			}
+			return out
+		}
 		if len(blk.Preds) > 1 {
 			for i, pred := range blk.Preds {
 				v := rv
@@ -226,6 +268,10 @@ func outcomeAlts(p *Prog, h *ssa.Function, kind string, holds bool, e env, depth
 				}
 				dec, m := matches(v)
 				if !dec {
+					if ca := condAlts(v, collect(blk, pred)); ca != nil {
+						alts = append(alts, ca...)
+						continue
+					}
 					if kind == "err" && holds {
 						continue // unknown error value: not a success alternative we can characterise
 					}
@@ -239,6 +285,10 @@ func outcomeAlts(p *Prog, h *ssa.Function, kind string, holds bool, e env, depth
 		}
 		dec, m := matches(rv)
 		if !dec {
+			if ca := condAlts(rv, collect(blk, nil)); ca != nil {
+				alts = append(alts, ca...)
+				continue
+			}
 			if kind == "err" {
 				// `return f(...)` tail call: outcome depends on the callee; no summary for success, ignore for failure
 				if holds {
